@@ -24,6 +24,7 @@ inductive SOp where
   | txnCommit               -- `session.get_transaction().commit()`: committing through the transaction object
   | beginBlock              -- `with session.begin(): pass` entered while no transaction is open: leaving the block commits
   | rawSql (c : Change)     -- `session.execute(text("UPDATE …"))`: goes straight into the connection's open transaction
+  | savepoint               -- `session.begin_nested()`: a SAVEPOINT inside the open transaction (flushes first); left open
   | query                   -- any query (autoflush first)
   | rollback
   | close
@@ -45,6 +46,7 @@ def stepRO (s : Sess) : SOp → Sess × SOut
   | .change c => ({ s with pending := s.pending ++ [c] }, .ok)
   | .flush => (s, .ok)                                       -- no-op: pending stays pending
   | .rawSql c => ({ s with txn := s.txn ++ [c] }, .ok)       -- visible to this session only; never committed
+  | .savepoint => (s, .ok)                                   -- flush is a no-op; an open savepoint changes nothing a commit attempt sees
   | .commit => (s, .raised)
   | .txnCommit => (s, .raised)                                  -- `before_commit` raises before anything is done; the transaction stays open
   | .beginBlock => ({ s with txn := [], pending := [] }, .raised)   -- `before_commit` raises; the block's exit rolls back
@@ -57,6 +59,7 @@ def stepRW (s : Sess) : SOp → Sess × SOut
   | .change c => ({ s with pending := s.pending ++ [c] }, .ok)
   | .flush => ({ s with txn := s.txn ++ s.pending, pending := [] }, .ok)
   | .rawSql c => ({ s with txn := s.txn ++ [c] }, .ok)
+  | .savepoint => ({ s with txn := s.txn ++ s.pending, pending := [] }, .ok)
   | .commit => ({ durable := applyChanges s.durable (s.txn ++ s.pending), txn := [], pending := [] }, .ok)
   | .txnCommit => ({ durable := applyChanges s.durable (s.txn ++ s.pending), txn := [], pending := [] }, .ok)
   | .beginBlock => ({ durable := applyChanges s.durable (s.txn ++ s.pending), txn := [], pending := [] }, .ok)
